@@ -1932,3 +1932,246 @@ theorem sliceLoop_docs_wf (bs : List Nat) :
   · simp
 
 end Xt.Json
+
+namespace Xt.Bridge
+open Xt.Serde
+open Xt.Msgpack (MVal)
+
+/-! ## `decodeOps` is `decodeG` with the ops kept -/
+
+/-- `g` (ops + rest / failure) agrees with `f` (value + rest / failure). -/
+def OpsSpec (r : Except Msgpack.DErr (MVal × List Nat)) (o : List Op × Except Msgpack.DErr (List Nat)) : Prop :=
+  match r with
+  | .ok (v, rest) => o = (flatten (mvalToDe v), .ok rest)
+  | .error e => o.2 = .error e
+
+theorem seqOps_spec (f : List Nat → Except Msgpack.DErr (MVal × List Nat))
+    (g : List Nat → List Op × Except Msgpack.DErr (List Nat)) (hfg : ∀ bs, OpsSpec (f bs) (g bs)) :
+    ∀ (n : Nat) (bs : List Nat),
+      match Msgpack.seqWith f n bs with
+      | .ok (vs, rest) => seqOps g n bs = (flattenList (mvalToDeList vs), .ok rest)
+      | .error e => (seqOps g n bs).2 = .error e
+  | 0, bs => by simp [Msgpack.seqWith, seqOps, mvalToDeList, flattenList]
+  | n + 1, bs => by
+    have h1 := hfg bs
+    simp only [Msgpack.seqWith, seqOps]
+    cases hf : f bs with
+    | error e =>
+      rw [hf] at h1
+      simp only [OpsSpec] at h1
+      rcases hg : g bs with ⟨ops, res⟩
+      rw [hg] at h1
+      simp only at h1
+      subst h1
+      simp
+    | ok p =>
+      obtain ⟨v, r⟩ := p
+      rw [hf] at h1
+      simp only [OpsSpec] at h1
+      rw [h1]
+      have h2 := seqOps_spec f g hfg n r
+      cases hs : Msgpack.seqWith f n r with
+      | error e =>
+        rw [hs] at h2
+        simp only [hs] at h2 ⊢
+        rcases hg : seqOps g n r with ⟨ops, res⟩
+        rw [hg] at h2
+        simp only at h2
+        subst h2
+        simp
+      | ok q =>
+        obtain ⟨vs, r'⟩ := q
+        rw [hs] at h2
+        simp only [hs] at h2 ⊢
+        rw [h2]
+        simp [mvalToDeList, flattenList]
+
+theorem pairsOps_spec (f : List Nat → Except Msgpack.DErr (MVal × List Nat))
+    (g : List Nat → List Op × Except Msgpack.DErr (List Nat)) (hfg : ∀ bs, OpsSpec (f bs) (g bs)) :
+    ∀ (n : Nat) (bs : List Nat),
+      match Msgpack.pairsWith f n bs with
+      | .ok (kvs, rest) => pairsOps g n bs = (flattenEntries (mvalToDePairs kvs), .ok rest)
+      | .error e => (pairsOps g n bs).2 = .error e
+  | 0, bs => by simp [Msgpack.pairsWith, pairsOps, mvalToDePairs, flattenEntries]
+  | n + 1, bs => by
+    have h1 := hfg bs
+    simp only [Msgpack.pairsWith, pairsOps]
+    cases hf : f bs with
+    | error e =>
+      rw [hf] at h1
+      simp only [OpsSpec] at h1
+      rcases hg : g bs with ⟨ops, res⟩
+      rw [hg] at h1
+      simp only at h1
+      subst h1
+      simp
+    | ok p =>
+      obtain ⟨k, r⟩ := p
+      rw [hf] at h1
+      simp only [OpsSpec] at h1
+      simp only [h1]
+      have h1v := hfg r
+      cases hfv : f r with
+      | error e =>
+        rw [hfv] at h1v
+        simp only [OpsSpec] at h1v
+        rcases hg : g r with ⟨ops, res⟩
+        rw [hg] at h1v
+        simp only at h1v
+        subst h1v
+        simp
+      | ok pv =>
+        obtain ⟨v, r1⟩ := pv
+        rw [hfv] at h1v
+        simp only [OpsSpec] at h1v
+        simp only [h1v]
+        have h2 := pairsOps_spec f g hfg n r1
+        cases hs : Msgpack.pairsWith f n r1 with
+        | error e =>
+          rw [hs] at h2
+          simp only at h2 ⊢
+          rcases hg : pairsOps g n r1 with ⟨ops, res⟩
+          rw [hg] at h2
+          simp only at h2
+          subst h2
+          simp
+        | ok q =>
+          obtain ⟨kvs, r'⟩ := q
+          rw [hs] at h2
+          simp only at h2 ⊢
+          rw [h2]
+          simp [mvalToDePairs, flattenEntries]
+
+/-- On success `decodeOps` issues exactly `flatten (mvalToDe v)` for the value
+`decodeG` returns, with the same rest; it fails exactly when `decodeG` fails,
+with the same error. -/
+theorem decodeOps_spec : ∀ (d : Nat) (bs : List Nat),
+    OpsSpec (Msgpack.decodeG false d bs) (decodeOps d bs) := by
+  intro d
+  induction d with
+  | zero =>
+    intro bs
+    unfold Msgpack.decodeG decodeOps
+    cases bs with
+    | nil => simp [OpsSpec]
+    | cons b t =>
+      simp only
+      cases hh : Msgpack.header (Msgpack.Marker.ofByte b) t with
+      | error e => simp [OpsSpec]
+      | ok p =>
+        obtain ⟨hd, r⟩ := p
+        cases hd with
+        | scalar v => simp [OpsSpec, scalarOp]
+        | str len =>
+          simp only
+          cases Msgpack.readN len r with
+          | error e => simp [OpsSpec]
+          | ok q => obtain ⟨s, r'⟩ := q; simp [OpsSpec, scalarOp]
+        | bin len =>
+          simp only
+          cases Msgpack.readN len r with
+          | error e => simp [OpsSpec]
+          | ok q => obtain ⟨s, r'⟩ := q; simp [OpsSpec, scalarOp]
+        | ext len => simp [OpsSpec]
+        | arr count => simp [OpsSpec]
+        | map pairs => simp [OpsSpec]
+  | succ d ih =>
+    intro bs
+    unfold Msgpack.decodeG decodeOps
+    cases bs with
+    | nil => simp [OpsSpec]
+    | cons b t =>
+      simp only
+      cases hh : Msgpack.header (Msgpack.Marker.ofByte b) t with
+      | error e => simp [OpsSpec]
+      | ok p =>
+        obtain ⟨hd, r⟩ := p
+        cases hd with
+        | scalar v => simp [OpsSpec, scalarOp]
+        | str len =>
+          simp only
+          cases Msgpack.readN len r with
+          | error e => simp [OpsSpec]
+          | ok q => obtain ⟨s, r'⟩ := q; simp [OpsSpec, scalarOp]
+        | bin len =>
+          simp only
+          cases Msgpack.readN len r with
+          | error e => simp [OpsSpec]
+          | ok q => obtain ⟨s, r'⟩ := q; simp [OpsSpec, scalarOp]
+        | ext len =>
+          simp only
+          by_cases h0 : d = 0 <;> simp [OpsSpec, h0]
+        | arr count =>
+          simp only
+          by_cases h0 : d = 0
+          · simp [OpsSpec, h0]
+          · simp only [h0, if_false]
+            have hs := seqOps_spec (Msgpack.decodeG false d) (decodeOps d) ih count r
+            cases hsw : Msgpack.seqWith (Msgpack.decodeG false d) count r with
+            | error e =>
+              rw [hsw] at hs
+              simp only at hs
+              rcases hg : seqOps (decodeOps d) count r with ⟨ops, res⟩
+              rw [hg] at hs
+              simp only at hs
+              subst hs
+              simp [OpsSpec]
+            | ok q =>
+              obtain ⟨vs, r'⟩ := q
+              rw [hsw] at hs
+              simp only at hs
+              rw [hs]
+              simp [OpsSpec, mvalToDe, flatten]
+        | map pairs =>
+          simp only
+          by_cases h0 : d = 0
+          · simp [OpsSpec, h0]
+          · simp only [h0, if_false]
+            have hs := pairsOps_spec (Msgpack.decodeG false d) (decodeOps d) ih pairs r
+            cases hsw : Msgpack.pairsWith (Msgpack.decodeG false d) pairs r with
+            | error e =>
+              rw [hsw] at hs
+              simp only at hs
+              rcases hg : pairsOps (decodeOps d) pairs r with ⟨ops, res⟩
+              rw [hg] at hs
+              simp only at hs
+              subst hs
+              simp [OpsSpec]
+            | ok q =>
+              obtain ⟨kvs, r'⟩ := q
+              rw [hsw] at hs
+              simp only at hs
+              rw [hs]
+              simp [OpsSpec, mvalToDe, flatten]
+
+/-- `msgpack2jsonX` only adds to `msgpack2json` when that ends in a source
+failure: on success and on a refusal in a complete document they are equal. -/
+theorem msgpack2jsonX_eq (P : FloatIO) (mode : Mode) (bs : List Nat)
+    (h : ∀ v, (msgpack2json P mode bs).verdict ≠ .srcMsgpack v) :
+    msgpack2jsonX P mode bs = msgpack2json P mode bs := by
+  unfold msgpack2jsonX
+  rcases hr : msgpack2json P mode bs with ⟨out, verdict⟩
+  rw [hr] at h
+  cases verdict with
+  | srcMsgpack v => exact absurd rfl (h v)
+  | _ => rfl
+
+/-- Otherwise it keeps every complete document and appends what the failing
+document had written; the verdict becomes a refusal only if serde_json refused
+something before the decoder failed. -/
+theorem msgpack2jsonX_src (P : FloatIO) (mode : Mode) (bs : List Nat) (v : Msgpack.Verdict)
+    (h : (msgpack2json P mode bs).verdict = .srcMsgpack v) :
+    (msgpack2jsonX P mode bs).out = (msgpack2json P mode bs).out ++ (failingDoc P mode bs).1 ∧
+    (msgpack2jsonX P mode bs).verdict =
+      (match (failingDoc P mode bs).2 with
+       | some e => Verdict.ser e
+       | none => Verdict.srcMsgpack v) := by
+  unfold msgpack2jsonX
+  rcases hr : msgpack2json P mode bs with ⟨out, verdict⟩
+  rw [hr] at h
+  simp only at h
+  subst h
+  rcases failingDoc P mode bs with ⟨part, r⟩
+  cases r <;> simp
+
+end Xt.Bridge
